@@ -12,7 +12,7 @@ git checkout -q -- . ; git clean -fdq
 git apply "$d/patch.diff" || { echo "CONFIRM: patch does not apply"; exit 1; }
 if git diff --name-only | grep -E '_test\.go$|testdata|\.golden|tests/' ; then echo "CONFIRM: touches tests"; fi
 go build ./... || { echo "CONFIRM: build failed"; git checkout -q -- .; exit 1; }
-go build -o /tmp/conf/sysl_patched ./cmd/sysl
+go build -o /tmp/conf/sysl_patched ./cmd/sysl; mkdir -p /tmp/conf/bin; cp /tmp/conf/sysl_patched /tmp/conf/bin/$(basename "$d")
 touched=$(git diff --name-only | grep '\.go$' | xargs -n1 dirname | sort -u | sed 's#^#github.com/anz-bank/sysl/#')
 all=$(go list ./... 2>/dev/null)
 pk=""
